@@ -44,15 +44,17 @@ def parseFl (t : String) : Option Flavour :=
 def optVal (toks : List String) (name : String) : Option String :=
   (toks.find? (fun t => t.startsWith (name ++ "="))).map (fun t => (t.drop (name.length + 1)).toString)
 
-def sha (a : Algo) (d : Bytes) : Bytes :=
+/-- Digests: SHA-1/2 natively; XXH3-128 from an oracle table supplied by the harness (`oracle xxh3 DATA
+DIGEST` lines) — bytes not in the table get an all-zero digest (which never equals a real one). -/
+def sha (xx : List (Bytes × Bytes)) (a : Algo) (d : Bytes) : Bytes :=
   match a with
   | .sha1 => Sha.sha1 d
   | .sha256 => Sha.sha256 d
   | .sha384 => Sha.sha384 d
   | .sha512 => Sha.sha512 d
-  | .xxh3 => List.replicate 16 0      -- not modelled: the orchestrator never sends xxh3 ops to the model
+  | .xxh3 => ((xx.find? (fun e => e.1 == d)).map (·.2)).getD (List.replicate 16 0)
 
-def cfg : Cfg := { H := sha }
+def mkCfg (xx : List (Bytes × Bytes)) : Cfg := { H := sha xx }
 
 /-! ### result formatting -/
 
@@ -88,6 +90,7 @@ def sortBy {α : Type} (lt : α → α → Bool) (l : List α) : List α := l.fo
 structure St where
   fs : FS := FS.empty
   lastTrace : List String := []
+  xx : List (Bytes × Bytes) := []
   writers : List (String × Flavour × Writer) := []
   readers : List (String × Reader) := []
   linkers : List (String × Linker) := []
@@ -264,6 +267,7 @@ def dumpEntries (fs : FS) (root : Path) : List String :=
 /-! ### one step -/
 
 def step (st : St) (line : String) : St × String :=
+  let cfg := mkCfg st.xx
   let toks0 := (line.trimAscii.toString.splitOn " ").filter (· ≠ "")
   -- trailing hints
   let nowTok := optVal (toks0.map (fun t => if t.startsWith "@" then (t.drop 1).toString else "")) "now"
@@ -556,13 +560,17 @@ def step (st : St) (line : String) : St × String :=
     | some (.link _) => (st, "ok symlink")
     | some .dir => (st, "ok dir")
     | none => (st, if parsePath p == [] then "ok dir" else "ok absent")
+  | ["oracle", "xxh3", d, h] =>
+    match parseB d, parseB h with
+    | some data, some dig => ({ st with xx := (data, dig) :: st.xx }, "ok")
+    | _, _ => bad
   | ["dump", p] =>
     let es := dumpEntries st.fs (parsePath p)
     (st, if es.isEmpty then "ok" else "ok " ++ ";".intercalate es)
   | _ => (st, "err badline")
 
 /-- Programs of the one-line operations, for the crash semantics (`crash <n> <t> <op …>`). -/
-def opProg (toks : List String) : Option (Prog Unit) :=
+def opProg (cfg : Cfg) (toks : List String) : Option (Prog Unit) :=
   match toks with
   | ["write", f, c, a, k, d] =>
     match parseFl f, parseAlgo a, parseKey k, parseB d with
@@ -593,7 +601,7 @@ def stepOrCrash (st : St) (line : String) : St × String :=
   | "crash" :: n :: t :: rest =>
     let nowTok := optVal (rest.map (fun x => if x.startsWith "@" then (x.drop 1).toString else "")) "now"
     let env : Env := { clock := (nowTok.bind (·.toNat?)).getD 0 }
-    match n.toNat?, t.toNat?, opProg (rest.filter (fun x => !x.startsWith "@")) with
+    match n.toNat?, t.toNat?, opProg (mkCfg st.xx) (rest.filter (fun x => !x.startsWith "@")) with
     | some nn, some tt, some p =>
       let len := (Prog.run env p st.fs).2.2.length
       ({ st with fs := Prog.crash env p st.fs nn tt }, s!"ok {len}")
